@@ -58,11 +58,23 @@ def _env(tier, pin, seed, extra=None):
     return env
 
 
+def _skipped(task, why):
+    return {"status": "SKIPPED", "messages": [{"state": "SKIPPED", "message": why}],
+            "chan": {"counts": {}, "distinct": [], "samples": [], "fails": [], "knowns": {}, "abandoned": [],
+                     "errors": []}, "paths": 0, "z3": {"queries": 0, "seconds": 0.0, "unknown": 0},
+            "task": {k: task[k] for k in ("cond", "pin", "seed")}, "wall_s": 0.0}
+
+
 def run_shard(task):
     out = task["out"]
     if os.path.exists(out):
         os.remove(out)
     limit = task["timeout"]
+    if task.get("deadline"):
+        left = task["deadline"] - time.time()
+        if left < 20:
+            return _skipped(task, "wall budget of the run exhausted before this shard started")
+        limit = min(limit, left + 30)
     env = _env(task["tier"], task["pin"], task["seed"],
                {"VF_COND_TIMEOUT": str(int(limit * 0.85))})
     t0 = time.time()
@@ -121,13 +133,22 @@ def check(prop, tier, jobs=16, only=None, seed=None, verbose=True):
     bdir = os.path.join(VERIF, "build", prop, tier)
     shutil.rmtree(bdir, ignore_errors=True)
     os.makedirs(bdir, exist_ok=True)
+    # wall budget of the whole run: shards that cannot start in time are reported as SKIPPED (= not explored,
+    # listed as inconclusive), so that a tier always ends in bounded time. Shards are interleaved across the
+    # conditions so that every condition gets its share of the budget.
+    budget = float(os.environ.get("VF_MAX_WALL", "1500" if tier == "thorough" else "1200"))
+    deadline = t_start + budget
     tasks = []
     for c in conds:
         for i, pin in enumerate(c.shards(tier)):
-            tasks.append({"prop": prop, "cond": c.name, "pin": pin, "tier": tier,
+            tasks.append({"prop": prop, "cond": c.name, "pin": pin, "tier": tier, "deadline": deadline, "rank": i,
                           "seed": hseed + (i % 3 if tier == "thorough" else 0),
                           "timeout": c.shard_timeout[tier],
                           "out": os.path.join(bdir, "%s__s%03d.json" % (c.name, i))})
+    counts = {}
+    for t in tasks:
+        counts[t["cond"]] = counts.get(t["cond"], 0) + 1
+    tasks.sort(key=lambda t: (t["rank"] / float(counts[t["cond"]]), t["cond"]))
     if verbose:
         print("[vf] %s %s: %d conditions, %d shards, %d workers" % (prop, tier, len(conds), len(tasks), jobs),
               flush=True)
@@ -165,6 +186,8 @@ def finish(prop, tier, conds, results, seed, hseed, t_start, verbose):
                                          "inconclusive_shards": []})
         pc["shards"] += 1
         st = r["status"]
+        if st != "SKIPPED":
+            pc["ran"] = pc.get("ran", 0) + 1
         ch = r["chan"]
         cnt = ch["counts"]
         for k in counts_total:
@@ -214,7 +237,7 @@ def finish(prop, tier, conds, results, seed, hseed, t_start, verbose):
     # vacuity guard per condition
     for c in conds:
         pc = per_cond.get(c.name)
-        if pc is None or pc["reached"] == 0:
+        if pc is None or (pc["reached"] == 0 and pc.get("ran", 0) > 0 and pc.get("ran", 0) > pc["inconclusive"]):
             harness_errors.append("condition %s never reached its judge (vacuous)" % c.name)
 
     # ---- replay every counterexample natively
